@@ -232,8 +232,18 @@ def error_sites(an, rep):
             for st in blk["stmts"]:
                 if st["k"] == "assign" and st["rv"]["rv"] == "agg" and st["rv"].get("kind") == "adt" and st["rv"]["adt"] == ERR:
                     sites.setdefault(st["rv"]["variant"], set()).add(b.key)
+    # a construction site inside a closure or private helper counts for every function that reaches it
+    cg = callgraph.CallGraph(core)
+    reach_cache = {}
+
+    def reached_from(key):
+        if key not in reach_cache:
+            b = core.find(key)
+            reach_cache[key] = {core.bodies[d].key for d in cg.reach([b])} if b else set()
+        return reach_cache[key]
     for v, want in sorted(EXPECTED_SITES.items()):
         got = sites.get(v, set())
-        R.check(want <= got, "Error::" + v, "construction sites", "expected construction in %s, found %s" %
-                (sorted(want - got), sorted(got)), sample={"variant": v, "sites": sorted(got)})
+        missing = [w for w in want if not (got & reached_from(w))]
+        R.check(not missing, "Error::" + v, "construction sites", "expected construction in (or below) %s, found %s" %
+                (sorted(missing), sorted(got)), sample={"variant": v, "sites": sorted(got)})
     return R
